@@ -6,11 +6,13 @@ Import ListNotations.
 From Setec Require Import Base.SMap Acl.Glob Server.KV Server.DB Server.Lin Server.LinDB Corr.Common Corr.Run_DB.
 Open Scope N_scope.
 
+(* one segment of a run between two quiescent points: the dump (file with counters, write
+   generation) before the segment, the stamped calls, the dump after it *)
 Inductive case :=
-| LCase (cs : list caller) (calls : list lcall) (live : live_dump) (disk : disk_dump) (g : N).
+| LCase (cs : list caller) (d0 : disk_dump) (g0 : N) (calls : list lcall) (live : live_dump) (disk : disk_dump) (g : N).
 
 Definition check (c : case) : bool :=
-  match c with LCase cs calls live disk g => db_lin_check cs live disk g calls end.
+  match c with LCase cs d0 g0 calls live disk g => db_lin_check cs (state_of_dump d0 g0) live disk g calls end.
 
 (* compact constructor used by the generated case files:
    invocation stamp, response stamp, caller index, operation, observed result *)
